@@ -752,7 +752,7 @@ func main() {
 			genRandom(r, 60000, add)
 		} else {
 			genExhaustive(3, add)
-			genRandom(r, 4000, add)
+			genRandom(r, 12000, add)
 		}
 	}
 	n := *workers
@@ -786,14 +786,21 @@ func main() {
 		}
 		out.Case(j.key+j.cs, results[i], key)
 		out.Count(j.cat)
-		if strings.Contains(results[i], " ok c") {
+		padded := " " + results[i]
+		if strings.Contains(padded, " ok c") {
 			out.Count("has:phase2-accepted")
 		}
-		if strings.Contains(results[i], "new") {
+		if strings.Contains(padded, " new") {
 			out.Count("has:identity-issued")
 		}
-		if strings.Contains(results[i], "none c") {
-			out.Count("has:no-response")
+		if strings.Contains(padded, " none c") {
+			out.Count("has:no-response-written")
+		}
+		if strings.Contains(padded, " fail c") {
+			out.Count("has:failure-response")
+		}
+		if strings.Contains(j.cs, " h") && strings.Contains(j.cs, ".P") {
+			out.Count("has:stale-challenge-response")
 		}
 	}
 	out.Finish(*stats, nil)
